@@ -431,6 +431,30 @@ func registerExternals(e *Engine) {
 	x["internal/stringslite.Index"] = x["internal/bytealg.IndexString"]
 	x["internal/stringslite.IndexByte"] = x["internal/bytealg.IndexByteString"]
 
+	// strings.TrimSpace on symbolic ASCII strings: fork per byte on the six ASCII
+	// space characters (the std-lib version goes through a 256-entry table)
+	x["strings.TrimSpace"] = func(p *Path, th *Thread, fr *frame, a []Value) Value {
+		if s, ok := a[0].(string); ok {
+			return strings.TrimSpace(s)
+		}
+		ts := strTerms(a[0])
+		isSpace := func(c *Term) bool {
+			if p.decide(Cmp(OpUle, ConstT(8, 0x80), c)) {
+				engErr("strings.TrimSpace on a symbolic non-ASCII byte (assume ASCII in the harness)")
+			}
+			sp := Or(Eq(c, ConstT(8, ' ')), Eq(c, ConstT(8, '\t')), Eq(c, ConstT(8, '\n')), Eq(c, ConstT(8, '\v')), Eq(c, ConstT(8, '\f')), Eq(c, ConstT(8, '\r')))
+			return p.decide(sp)
+		}
+		start, end := 0, len(ts)
+		for start < end && isSpace(ts[start]) {
+			start++
+		}
+		for end > start && isSpace(ts[end-1]) {
+			end--
+		}
+		return mkStr(ts[start:end])
+	}
+
 	// strings.Builder uses unsafe to avoid a copy
 	x["(*strings.Builder).String"] = func(p *Path, th *Thread, fr *frame, a []Value) Value {
 		st := (*a[0].(*Value)).(Struct)
